@@ -259,12 +259,6 @@ Proof.
 Qed.
 
 (* an (S1) sort that is not stable: it reverses the order of equal keys whenever it has to sort *)
-Fixpoint sortedb {A} (lt : A -> A -> bool) (l : list A) : bool :=
-  match l with
-  | [] => true
-  | x :: t => forallb (fun y => negb (lt y x)) t && sortedb lt t
-  end.
-
 Definition rsort : sorter :=
   fun A lt l => if sortedb lt l then l else isort_list lt (rev l).
 
